@@ -98,6 +98,10 @@ def run_chain(case):
         kw["cookies"] = dict([REQ_COOKIE])
         if case.get("chunked"):
             kw["chunked"] = True          # the caller asks for chunked framing of its body
+        if case.get("compress"):
+            kw["compress"] = True
+        if case.get("expect100"):
+            kw["expect100"] = True
         if body_kind == "bytes":
             kw["data"] = BODY
         elif body_kind == "iter":
@@ -120,6 +124,7 @@ def run_chain(case):
         task = loop.create_task(go())
         records = []
         answered = {}
+        continued = set()
         for _ in range(400):
             loop.drain(500)
             progressed = False
@@ -129,6 +134,10 @@ def run_chain(case):
                     progressed = True
                 reqs = http1.read_requests(bytes(peer.buf)).messages
                 done = answered.get(idx, 0)
+                if done < len(reqs) and not reqs[done].complete and (idx, done) not in continued and (header(reqs[done], "Expect") or "").lower() == "100-continue":
+                    continued.add((idx, done))
+                    peer.send(b"HTTP/1.1 100 Continue\r\n\r\n")
+                    progressed = True
                 while done < len(reqs) and reqs[done].complete:
                     m = reqs[done]
                     done += 1
@@ -180,7 +189,7 @@ def header(m, name):
 
 def judge(part, case, records, result, hung, leaked):
     origins, hops = case["origins"], case["hops"]
-    tag = f"{case['method']} body={case['body']}{'/chunked' if case.get('chunked') else ''} chain={[o for o in origins]} hops={hops} max={case.get('max_redirects', 10)}"
+    tag = f"{case['method']} body={case['body']}{'/chunked' if case.get('chunked') else ''}{'/compress' if case.get('compress') else ''}{'/expect100' if case.get('expect100') else ''} chain={[o for o in origins]} hops={hops} max={case.get('max_redirects', 10)}"
 
     def V(sig, msg):
         part.violation(f"C17:{sig}", f"{tag}: {msg}", {"kind": "chain", "case": case})
@@ -196,6 +205,7 @@ def judge(part, case, records, result, hung, leaked):
     stop = None
     cur_m, cur_b = method, body
     maxr = case.get("max_redirects", 10)
+    dropped_from = 10 ** 6       # first hop that is sent after the body (and method) were dropped
     for k in range(len(origins)):
         expected.append((origins[k], cur_m, cur_b))
         if k >= len(hops):
@@ -205,7 +215,8 @@ def judge(part, case, records, result, hung, leaked):
             # a 3xx without Location cannot be followed: it is the final response of the chain
             stop = "no-location"
             break
-        if maxr and k + 1 >= maxr:
+        if k + 1 >= maxr:
+            # "at most max_redirects requests": 0 cannot mean fewer than the one request that was asked for
             stop = "too-many"
             break
         if form in ("mailto", "ftp"):
@@ -219,11 +230,12 @@ def judge(part, case, records, result, hung, leaked):
             break
         if (code == 303 and cur_m != "HEAD") or (code in (301, 302) and cur_m == "POST"):
             cur_m, cur_b = "GET", b""
+            dropped_from = min(dropped_from, k + 1)
     # ---- what the origins saw
     if len(records) > len(expected):
         extra = records[len(expected)]
         V(f"extra-request:{stop or 'chain-end'}", f"{len(records)} requests were sent, at most {len(expected)} expected ({stop or 'end of chain'}); extra one went to {extra[0]} {extra[1].target!r}")
-    if maxr and len(records) > maxr:
+    if len(records) > max(maxr, 1):
         V("more-requests-than-max_redirects", f"{len(records)} requests with max_redirects={maxr}")
     same_origin_so_far = True
     for k, (label, m) in enumerate(records[:len(expected)]):
@@ -236,7 +248,27 @@ def judge(part, case, records, result, hung, leaked):
         got_m = m.method.decode().upper()
         if got_m != want_m:
             V(f"method-table:{hops[k - 1][0] if k else 'first'}:{method}->{got_m}", f"hop {k} used {got_m}, the documented table gives {want_m}")
-        if want_b is not None and m.body != want_b and not (want_m == "HEAD"):
+        got_b = m.body
+        if (header(m, "Content-Encoding") or "").lower() == "deflate" and case.get("compress") and k < dropped_from:
+            import zlib
+            try:
+                got_b = zlib.decompress(m.body)
+            except zlib.error:
+                pass
+        # ---- the header fields that describe the body follow the body
+        desc = {n: header(m, n) for n in ("Content-Length", "Content-Type", "Content-Encoding", "Transfer-Encoding", "Expect")}
+        if k >= dropped_from:
+            stale = {n: v for n, v in desc.items() if v is not None and not (n == "Content-Length" and v == "0")}
+            if stale:
+                V(f"body-dropped-but-described:{'+'.join(sorted(stale))}",
+                  f"hop {k} is the {want_m} that replaces a {method} with a body, and it still carries {stale}")
+        elif k > 0 and got_m == method:
+            first = {n: header(records[0][1], n) for n in desc}
+            if desc != first:
+                diff = {n: (first[n], desc[n]) for n in desc if desc[n] != first[n]}
+                V(f"body-description-changes:{'+'.join(sorted(diff))}",
+                  f"hop {k} repeats the {method} of hop 0 with the same body, but its body-describing fields differ (first, now): {diff}")
+        if want_b is not None and got_b != want_b and not (want_m == "HEAD"):
             V(f"body-table:{hops[k - 1][0] if k else 'first'}", f"hop {k} carried body {m.body[:20]!r}, expected {want_b[:20]!r}")
         # ---- secrets
         auth = header(m, "Authorization")
@@ -336,6 +368,17 @@ def cases(quick):
         for mth in ("POST", "PUT"):
             out.append({"origins": ["A", "A", "A"], "hops": [(st, "rel"), (302, "rel")], "method": mth, "body": "bytes", "chunked": True})
             out.append({"origins": ["A", "B"], "hops": [(st, "abs")], "method": mth, "body": "bytes", "chunked": True})
+    # options that shape the body: compression and Expect: 100-continue, across drop-then-keep and keep-then-drop chains
+    for opt in ("compress", "expect100"):
+        for s1, s2 in itertools.product(STATUSES, repeat=2):
+            for mth in ("POST", "PUT"):
+                out.append({"origins": ["A", "A", "A"], "hops": [(s1, "rel"), (s2, "rel")], "method": mth, "body": "bytes", opt: True})
+        for s1 in STATUSES:
+            out.append({"origins": ["A", "B"], "hops": [(s1, "abs")], "method": "POST", "body": "bytes", opt: True})
+    # max_redirects=0
+    for mth, body in (("GET", "none"), ("POST", "bytes")):
+        out.append({"origins": ["A", "A", "A"], "hops": [(302, "rel"), (302, "rel")], "method": mth, "body": body, "max_redirects": 0})
+        out.append({"origins": ["A", "B", "A"], "hops": [(307, "abs"), (307, "abs")], "method": mth, "body": body, "max_redirects": 0})
     # a 3xx that carries no Location: first hop, behind another redirect, and at the max_redirects boundary
     for st in (301, 302, 303, 307, 308):
         for mth, body in (("GET", "none"), ("POST", "bytes")):
